@@ -43,11 +43,16 @@ def decl? (w : String) : Option Decl :=
   | _ => none
 
 def file? (w : String) : Option (Str × List Str) :=
-  match w.splitOn ":" with
-  | [p, l] => match hexStr? p, hexList? l with
-    | some p, some l => some (p, l)
+  match w.splitOn "=" with
+  | [p, raw] => match hexStr? p, hexStr? raw with      -- content given as bytes: the lines are what bufio.Scanner yields
+    | some p, some raw => some (p, linesOf raw)
     | _, _ => none
-  | _ => none
+  | _ =>
+    match w.splitOn ":" with
+    | [p, l] => match hexStr? p, hexList? l with
+      | some p, some l => some (p, l)
+      | _, _ => none
+    | _ => none
 
 def orc? (w : String) : Option (Nat × Str × String) :=
   match w.splitOn ":" with
@@ -58,35 +63,62 @@ def orc? (w : String) : Option (Nat × Str × String) :=
     | _, _ => none
   | _ => none
 
-/-- split the words after the header into the four sections -/
-def sections (ws : List String) : List String × List String × List String × List String :=
-  let rec go (ws : List String) (cur : Nat) (o f r a : List String) : List String × List String × List String × List String :=
+structure Secs where
+  o : List String := []
+  f : List String := []
+  r : List String := []
+  a : List String := []
+  b : List String := []
+  twice : Bool := false
+
+/-- split the words after the header into the sections O F R A [B] -/
+def sections (ws : List String) : Secs :=
+  let rec go (ws : List String) (cur : Nat) (s : Secs) : Secs :=
     match ws with
-    | [] => (o.reverse, f.reverse, r.reverse, a.reverse)
+    | [] => { s with o := s.o.reverse, f := s.f.reverse, r := s.r.reverse, a := s.a.reverse, b := s.b.reverse }
     | w :: t =>
-      if cur < 4 && w = "O" then go t 1 o f r a
-      else if cur < 4 && w = "F" then go t 2 o f r a
-      else if cur < 4 && w = "R" then go t 3 o f r a
-      else if cur < 4 && w = "A" then go t 4 o f r a
+      if cur < 4 && w = "O" then go t 1 s
+      else if cur < 4 && w = "F" then go t 2 s
+      else if cur < 4 && w = "R" then go t 3 s
+      else if cur < 4 && w = "A" then go t 4 s
+      else if cur = 4 && w = "B" then go t 5 { s with twice := true }
       else match cur with
-        | 1 => go t cur (w :: o) f r a
-        | 2 => go t cur o (w :: f) r a
-        | 3 => go t cur o f (w :: r) a
-        | _ => go t cur o f r (w :: a)
-  go ws 0 [] [] [] []
+        | 1 => go t cur { s with o := w :: s.o }
+        | 2 => go t cur { s with f := w :: s.f }
+        | 3 => go t cur { s with r := w :: s.r }
+        | 4 => go t cur { s with a := w :: s.a }
+        | _ => go t cur { s with b := w :: s.b }
+  go ws 0 {}
 
 def doParse (incl : String) (ws : List String) : String :=
-  let (o, f, r, a) := sections ws
-  match o.mapM decl?, f.mapM file?, r.mapM orc?, a.mapM hexStr? with
-  | some decls, some files, some orc, some args =>
-    render orc decls (parse orc (incl == "1") decls files args)
-  | _, _, _, _ => "bad-op"
+  let s := sections ws
+  match s.o.mapM decl?, s.f.mapM file?, s.r.mapM orc?, s.a.mapM hexStr?, s.b.mapM hexStr? with
+  | some decls, some files, some orc, some args, some args2 =>
+    if s.twice then
+      let (out, rest1) := parseTwice orc (incl == "1") decls files args args2
+      match out with
+      | .done _ => render orc decls out ++ " ||" ++ String.join (rest1.map (fun r => " " ++ hexOf r))
+      | _ => render orc decls out
+    else render orc decls (parse orc (incl == "1") decls files args)
+  | _, _, _, _, _ => "bad-op"
+
+/-- the exported fatal entry points: `fx <msg|err|iferr|ifnil|write> <def|out|fail>`; where the text appears follows the
+    writer set with `SetWriter` (default: standard error) -/
+def doFx (entry writer : String) : String :=
+  let wh := if writer = "out" then "out" else if writer = "fail" then "none" else "err"
+  match entry with
+  | "msg" | "err" => "fatal:" ++ wh
+  | "iferr" => (match fatalIfError false with | some _ => "returned:none" | none => "fatal:" ++ wh)
+  | "ifnil" => (match fatalIfError true with | some _ => "returned:none" | none => "fatal:" ++ wh)
+  | "write" => "returned:" ++ wh
+  | _ => "bad-op"
 
 def step (_ : Unit) (line : String) : Unit × String :=
   let out :=
     match words line with
     | "pi" :: incl :: ws => doParse incl ws
     | "pc" :: incl :: ws => doParse incl ws
+    | ["fx", entry, writer] => doFx entry writer
     | _ => "bad-op"
   ((), out)
 
